@@ -4,6 +4,9 @@ import Mamba.Lemmas.CliqueColourCard
 import Mamba.Lemmas.CliqueGoBK2
 import Mamba.Lemmas.DegGo2
 import Mamba.Model.DsaturGo
+import Mamba.Lemmas.DsaturInv
+import Mamba.Lemmas.DsaturC8
+import Mamba.Lemmas.ChromaticIndexGo
 /-!
 # C09 — property theorems (clique and colouring invariants; checkers for the witnesses)
 
@@ -206,19 +209,23 @@ theorem degeneracy_model_correct {g : G} (hw : g.WF) :
   obtain ⟨d, order, he, hc⟩ := degeneracyGo_spec hw
   exact ⟨d, order, he, hc, (degeneracyCert_sound hw hc).1, (degeneracyCert_sound hw hc).2⟩
 
-/-! ## DSATUR branch and bound (faithful model `dfsDsatur`, `chromaticNumberGo`, `isKColorableGo`) — PARTIAL
+/-! ## DSATUR branch and bound (faithful model `dfsDsatur`, `chromaticNumberGo`, `isKColorableGo`, including Go's
+`container/heap`) — proved exact
 
-The model (Model/DsaturGo.lean, including Go's `container/heap`) is run by the driver and agrees with the library
-colouring for colouring on every explored input; the colouring it returns is judged on every input by the verified
-checker (`cert=`). What is NOT proved about the model: soundness of the returned colouring for all graphs (needs the
-heap-order invariant: the `Fix` loop visits every heap entry exactly once), that the upper bound only decreases to
-values for which a proper colouring was recorded, exactness (`= chromaticNumberSpec`), and termination within the
-fuel. Proved: only the boundary behaviour below. -/
+Structure of the proof (Lemmas/Dsatur*.lean): heap operations are permutations and keep the heap order; the
+`range`-with-`Fix` loop visits every entry once (`dsatur_visits_all`); a state invariant (`DSInv`: path/heap partition,
+saturation counters = numbers of coloured neighbours per colour, frozen counters of path vertices, options =
+exactly the feasible colours up to the first unused one, colours used form an initial segment, recorded best
+colouring proper with exactly `upperBound` colours) is preserved by the forward step, by recording a colouring and
+by a backtracking step; a completeness invariant (`CInv`: for every bound `u ≤ upperBound`, if a proper colouring with
+colours `≤ u-2` exists then one extends the current path or a pending alternative on the stack — the first-unused-
+colour symmetry break is the colour-swap argument of `colourable_complete`, independent of the vertex the heap
+yields); a termination measure bounded by the fuel `(n+2)^(n+2)`. -/
 
 /-- boundary cases of the DSATUR model: the graph without vertices is coloured with 0 colours whatever the bounds; for
 `n > 0`, an upper bound of `-1` (`IsKColorable(g, -1)`) answers "no colouring" at once and smaller ones panic (negative
 slice length), as in the Go code -/
-theorem dsatur_model_boundary_partial (g : G) (lo up : Int) :
+theorem dsatur_model_boundary (g : G) (lo up : Int) :
     (g.n = 0 → dfsDsatur g lo up = .ok (0, some [])) ∧
     (g.n ≠ 0 → up + 1 = 0 → dfsDsatur g lo up = .ok (-1, none)) ∧
     (g.n ≠ 0 → up + 1 < 0 → dfsDsatur g lo up = .panic) := by
@@ -227,6 +234,71 @@ theorem dsatur_model_boundary_partial (g : G) (lo up : Int) :
     simp [dfsDsatur, hn, h0]
   · have hn : (g.n == 0) = false := by simpa using h
     simp [dfsDsatur, hn, h0]
+
+/-- `heap_perm`: every `container/heap` operation of the model returns a permutation of its input (`Remove(h, 0)`:
+of the input without its first entry; `Push`: with the new entry), whatever the order of the heap -/
+theorem dsatur_heap_perm (num : List Int) (deg : List Nat) (h : List Nat) (x : Nat) :
+    (heapInit num deg h).Perm h ∧ (∀ k, k < h.length → (heapFix num deg h k).Perm h) ∧
+      (heapRemove0 num deg (x :: h)).Perm h ∧ (heapPush num deg h x).Perm (x :: h) :=
+  ⟨heapInit_perm num deg h, fun _ hk => heapFix_perm num deg h hk, heapRemove0_perm num deg x h,
+    heapPush_perm num deg h x⟩
+
+/-- the heap order invariant of `container/heap` (no entry comes strictly before its parent in the order of
+`uncolouredHeap.Less`) is established by `Init` and preserved by `Remove(h, 0)` -/
+theorem dsatur_heap_order (num : List Int) (deg : List Nat) (h : List Nat) (x : Nat) :
+    HeapOK num deg (heapInit num deg h) ∧
+      (HeapOK num deg (x :: h) → HeapOK num deg (heapRemove0 num deg (x :: h))) :=
+  ⟨(heapInit_spec num deg h).2, fun hok => (heapRemove0_spec num deg x h hok).2⟩
+
+/-- `dsatur_visits_all`: started on a duplicate-free heap that satisfies the heap order, the Go loop
+`for k, u := range uh.intHeap { if g.IsEdge(u, v) { seenColours[c]++ … }; heap.Fix(&uh, k) }` — which reads
+`intHeap[k]` from the array that `Fix` permutes while the loop runs — increments the counter of EVERY heap entry
+adjacent to `v` exactly once and of no other, keeps the heap entries and re-establishes the heap order. (This is
+where the heap ORDER matters for correctness: `Fix` must never sift down during this loop.) -/
+theorem dsatur_visits_all (g : G) (v c : Nat) (s : Dsat) (hnd : s.heap.Nodup) (hok : HeapOK s.num s.deg s.heap)
+    (hrows : ∀ u ∈ s.heap, u < s.seen.length ∧ c < (s.seen.getD u []).length) :
+    (fwdLoop g v c (s.heap.length + 1) 0 s).heap.Perm s.heap ∧
+      HeapOK (fwdLoop g v c (s.heap.length + 1) 0 s).num (fwdLoop g v c (s.heap.length + 1) 0 s).deg
+        (fwdLoop g v c (s.heap.length + 1) 0 s).heap ∧
+      ∀ u c', seenAt (fwdLoop g v c (s.heap.length + 1) 0 s) u c' = seenAt s u c' +
+        (if u ∈ s.heap ∧ g.adj u v = true ∧ c' = c then 1 else 0) := by
+  obtain ⟨h1, h2, _, h4⟩ := fwdLoop_spec g v c s hnd hok hrows
+  exact ⟨h1, h2, h4⟩
+
+/-- `dsatur_sound` + `dsatur_complete` + termination, for `ChromaticNumber`: for every well-formed graph the faithful
+model of `graph.ChromaticNumber` (CliqueNumber as lower bound, then the DSATUR branch and bound) terminates within its
+fuel without panicking and returns the chromatic number together with a colouring that is proper and uses exactly
+the colours `0 .. χ-1` -/
+theorem chromaticNumber_model_correct {g : G} (hw : g.WF) :
+    ∃ c : List Int, chromaticNumberGo g = .ok ((chromaticNumberSpec g : Int), some c) ∧ c.length = g.n ∧
+      (∀ v, v < g.n → 0 ≤ c.getD v 0 ∧ c.getD v 0 < (chromaticNumberSpec g : Int)) ∧
+      (∀ u v, u < g.n → v < g.n → g.adj u v = true → c.getD u 0 ≠ c.getD v 0) ∧
+      ∀ x : Nat, x < chromaticNumberSpec g → ∃ v, v < g.n ∧ c.getD v 0 = (x : Int) := by
+  obtain ⟨c, he, h1, h2, h3, h4⟩ := chromaticNumberGo_spec hw
+  exact ⟨c, he, h1, h2, h3, fun x hx => h4 x (by omega)⟩
+
+/-- the faithful model of `graph.IsKColorable(g, k)` (`k ≥ 0`) answers true exactly when `k ≥ χ`, then with a proper
+colouring whose colours are `< k`; otherwise it answers `false, nil` -/
+theorem isKColorable_model_correct {g : G} (hw : g.WF) (k : Nat) :
+    (chromaticNumberSpec g ≤ k → ∃ c : List Int, isKColorableGo g (k : Int) = .ok (true, some c) ∧ c.length = g.n ∧
+      (∀ v, v < g.n → 0 ≤ c.getD v 0 ∧ c.getD v 0 < (k : Int)) ∧
+      (∀ u v, u < g.n → v < g.n → g.adj u v = true → c.getD u 0 ≠ c.getD v 0)) ∧
+    (k < chromaticNumberSpec g → isKColorableGo g (k : Int) = .ok (false, none)) := by
+  obtain ⟨h1, h2⟩ := isKColorableGo_spec hw k
+  refine ⟨fun hk => ?_, h2⟩
+  obtain ⟨c, k', he, hbo, hk'⟩ := h1 hk
+  exact ⟨c, he, hbo.1, fun v hv => ⟨(hbo.2.1 v hv).1, by have := (hbo.2.1 v hv).2; omega⟩, hbo.2.2.1⟩
+
+/-- the faithful model of `graph.ChromaticIndex` — C06's proved model of `LineGraphDense` on the interface view of
+`g`, the DSATUR model on the result, then the loop writing `byte(colour + 1)` at the position of every edge — never
+panics and returns the chromatic index together with an array accepted by the verified edge-colouring checker (right
+length, 0 exactly on the non-edges, proper, exactly the colours `1 .. χ'`), PROVIDED `χ' < 256`: the Go conversion
+`byte(·)` wraps, and for `χ' ≥ 256` (e.g. the star with 256 edges) the real function returns colour 0 on an edge — a
+defect of the code recorded in notes/C09.md, outside the hypothesis of this theorem. -/
+theorem chromaticIndex_model_correct {g : G} (hw : g.WF) (h256 : chromaticIndexSpec g < 256) :
+    ∃ b, chromaticIndexGo g = .ok ((chromaticIndexSpec g : Int), some b) ∧
+      isProperEdgeColouring g b (chromaticIndexSpec g) = true ∧ usesExactly1 b (chromaticIndexSpec g) = true :=
+  chromaticIndexGo_spec hw h256
 
 /-! ## GreedyColor (faithful model) -/
 
@@ -312,6 +384,9 @@ example : degeneracyGo (ofEdges 3 [(0, 1), (1, 2)]) = .ok (1, [0, 1, 2]) := by d
 -- test: the DSATUR model on the triangle and on the path (same colourings as the library)
 example : chromaticNumberGo exTriangle = .ok (3, some [0, 2, 1]) := by decide
 example : isKColorableGo exTriangle 2 = .ok (false, none) := by decide
+-- test: hypothesis of `chromaticIndex_model_correct`, and the model on the triangle
+example : chromaticIndexSpec exTriangle < 256 := by decide
+example : chromaticIndexGo exTriangle = .ok (3, some [1, 3, 2]) := by decide
 -- test: the specification values on the triangle
 example : chromaticNumberSpec exTriangle = 3 ∧ cliqueNumberSpec exTriangle = 3 ∧ degeneracySpec exTriangle = 2 := by
   decide
